@@ -489,6 +489,17 @@ def trims(R, ctx, rid):
         own = all(len(cs.args) == 2 and simp_deep(v.arg(cs, 1))[0] == "param" and fn.local_name(simp_deep(v.arg(cs, 1))[1]) == "count" for cs in calls)
         R.ob(rid, fn, "dispatch:" + name, kinds == {"ItemSlice", "BlockRange"} and own,
              "BlockSlice::%s forwards count to %s" % (name, sorted(kinds)))
+        # every kind of slice is trimmed — the Item arm and BOTH range kinds reach a trim of their payload (a Skip that keeps its
+        # length behind an announced later clock shifts every block encoded after it)
+        names = ["Item", "GC", "Skip"]
+        reached = set()
+        for cs in calls:
+            ks, used = kinds_reaching(Y, fn, cs.bb, enum="yrs::slice::BlockSlice", place_hint=None, names=names)
+            if used:
+                reached |= ks
+        R.ob(rid, fn, "all-kinds:" + name, reached == set(names),
+             "every kind of slice reaches a trim of its payload" if reached == set(names) else
+             "no trim is reached for BlockSlice::%s: such a slice keeps its bounds" % sorted(set(names) - reached))
 
 
 def known_state(R, ctx, rid):
@@ -1086,6 +1097,9 @@ API_DELEGATIONS = [
     ("<yrs::types::xml::XmlTextPrelim as yrs::block::Prelim>::integrate", r"Text::push$", {0: "inner_ref", 2: "self.0"}, None),
     ("<yrs::types::text::DeltaPrelim as yrs::block::Prelim>::integrate", r"Text::apply_delta$", {0: "inner_ref", 2: "self.0"}, None),
     ("<yrs::types::xml::XmlDeltaPrelim as yrs::block::Prelim>::integrate", r"Text::apply_delta$", {0: "inner_ref", 2: "self.delta"}, None),
+    # attributes active at the cursor that the caller did NOT name are switched off for the inserted content — and only those
+    ("yrs::block::ItemPosition::unset_missing", r"HashMap::contains_key$", {0: "attributes", 1: ("has", "::next(HashMap::iter(")}, None),
+    ("yrs::block::ItemPosition::unset_missing", r"HashMap::insert$", {0: "attributes", 1: ("has", "::next(HashMap::iter("), 2: "Null{}"}, "!contains_key"),
     # the running attribute set: a mark overwrites the value of its key, a null mark removes the key
     ("yrs::types::text::update_current_attributes", r"HashMap::insert$", {0: "attrs", 1: "key", 2: "value"}, None),
     ("yrs::types::text::update_current_attributes", r"HashMap::remove$", {0: "attrs", 1: "key"}, None),
@@ -1232,9 +1246,11 @@ def _delegations(R, Y, rid, table, floor):
             if not fn.cfg().postdominates(cs.bb, 0):
                 bad.append("the delegation does not run on every path")
         if guard:
-            okg = v.has_guard(cs.bb, lambda l: isinstance(l.term, tuple) and l.term[0] == "call" and l.term[1].endswith(guard) and l.polarity is True)
+            pol = not guard.startswith("!")
+            gname = guard.lstrip("!")
+            okg = v.has_guard(cs.bb, lambda l: isinstance(l.term, tuple) and l.term[0] == "call" and l.term[1].endswith(gname) and l.polarity is pol)
             if not okg:
-                bad.append("not under %s() == true" % guard)
+                bad.append("not under %s() == %s" % (gname, str(pol).lower()))
         R.ob(rid, fn, site, not bad, "hands on its own arguments" if not bad else "; ".join(bad), cs.loc())
     R.floor(rid, "delegations checked", n, floor)
 
